@@ -70,6 +70,18 @@ THEOREMS = [
     "Pydjinni.Front.record_sound",
     "Pydjinni.Front.enum_parse_iff_print",
     "Pydjinni.Front.flags_parse_iff_print",
+    "Pydjinni.Front.lexOne_wf",
+    "Pydjinni.Front.lexOne_wf_iff",
+    "Pydjinni.Front.lex_render",
+    "Pydjinni.Front.lex_render_iff",
+    "Pydjinni.Front.lex_iff_render",
+    "Pydjinni.Front.lex_layout_independent",
+    "Pydjinni.Front.lex_render_position",
+    "Pydjinni.Front.FileShape.good_wf",
+    "Pydjinni.Front.source_roundtrip",
+    "Pydjinni.Front.source_roundtrip_good",
+    "Pydjinni.Front.layout_independence",
+    "Pydjinni.Front.source_injective",
 ]
 LEVEL = "proof"
 
